@@ -45,6 +45,7 @@ def setup(ctx):
     ctx.require("monitor", "l3_calls", 30)
     ctx.require("monitor", "raw_mode_runs", 5000)
     ctx.require("monitor", "l3_raw_mode_calls", 6)
+    ctx.require("monitor", "overlapping_calls", 40)
 
 
 CAP = 10 * 1024 * 1024
@@ -459,8 +460,107 @@ def run_l3(ctx):
                      sample={"level": "L3", "entry": entry, "stage": spec["stage"], "termination": spec["termination"], "stream": data[:60], "result": str(res)[:100]})
 
 
+def run_l3_overlap(ctx):
+    """Several calls in flight at the same time on ONE GeminiClient (as a relay or a crawler uses it): every
+    call must end as it would alone - its own stream, its own error - whatever the others do meanwhile."""
+    from nauyaca.client.session import GeminiClient
+
+    from vf import peers
+
+    rng = ctx.rng("overlap")
+    BODY = bytes((i * 7 + 3) & 0xFF for i in range(24000))
+    TEXT = ("first half of the body / " * 400 + "second half\n").encode()
+    streams = {
+        "/fast": b"20 text/gemini\r\nquick answer\n",
+        "/slow-text": b"20 text/plain\r\n" + TEXT,
+        "/slow-binary": b"20 application/octet-stream\r\n" + BODY,
+        "/notfound": b"51 nothing here\r\n",
+        "/late-header": b"20 text/gemini\r\nheader came late\n",
+    }
+
+    def behaviour(conn):
+        line = conn.read_line(timeout=5) or b""
+        path = "/" + line.split(b"/", 3)[-1].decode("latin-1").split(";")[0].split("?")[0].strip() if line.count(b"/") >= 3 else "/"
+        if line.startswith(b"titan:"):
+            conn.drain(timeout=0.3)
+        if path == "/stall":
+            time.sleep(1.2)
+            return
+        if path == "/reset-mid-body":
+            conn.send(b"20 text/plain\r\npartial")
+            time.sleep(0.15)
+            conn.reset()
+            return
+        data = streams.get(path, b"51 unknown\r\n")
+        if path.startswith("/slow"):
+            half = len(data) // 2
+            conn.send(data[:half])
+            time.sleep(0.2)
+            conn.send(data[half:])
+        elif path == "/late-header":
+            time.sleep(0.18)
+            conn.send(data)
+        else:
+            conn.send(data)
+        conn.close()
+
+    expected = {p: expected_client_result(d, True, CAP) for p, d in streams.items()}
+    combos = [("/slow-text", "/fast"), ("/slow-binary", "/fast"), ("/slow-text", "/stall"), ("/late-header", "/fast"), ("/slow-binary", "/notfound"),
+              ("/slow-text", "/reset-mid-body"), ("/slow-binary", "/slow-text", "/fast"), ("/late-header", "/stall", "/fast"), ("/fast", "/fast", "/fast")]
+    with peers.ScriptedPeer(behaviour=behaviour) as peer:
+        for rep in range(ctx.pick(1, 10)):
+            for ci, combo in enumerate(combos):
+                if ctx.nshards > 1 and ci % 4 != (ctx.shard - 4) % 4:
+                    continue
+                for entry_kinds in (("get",) * len(combo), ("get", "upload", "get")[: len(combo)]):
+                    for raw in (False, True) if rep % 2 == 0 else (False,):
+                        stagger = rng.choice([0, 0.02, 0.1])
+
+                        async def one(client, path, kind, delay):
+                            if delay:
+                                await asyncio.sleep(delay)
+                            url = f"gemini://127.0.0.1:{peer.port}{path}"
+                            try:
+                                if kind == "upload":
+                                    r = await client.upload(url, b"abc", mime_type="text/plain")
+                                else:
+                                    r = await client.get(url, follow_redirects=False)
+                                return ("response", r.status, r.meta, r.body)
+                            except BaseException as e:  # noqa: BLE001
+                                return ("error", type(e).__name__, str(e)[:100])
+
+                        async def go():
+                            client = GeminiClient(timeout=0.8, trust_on_first_use=False, **({"decode_text": False} if raw else {}))
+                            return await asyncio.gather(*[one(client, p, k, i * stagger) for i, (p, k) in enumerate(zip(combo, entry_kinds))])
+
+                        results = asyncio.run(go())
+                        peer.wait_idle(4)
+                        for path, kind, res in zip(combo, entry_kinds, results):
+                            ctx.count("monitor", "overlapping_calls")
+                            wit = {"level": "L3-overlap", "calls_in_flight": list(zip(combo, entry_kinds)), "this_call": path, "entry": kind, "raw_mode": raw, "stagger": stagger,
+                                   "result": (res[:3] + ((res[3][:60] if res[3] is not None else None),)) if res[0] == "response" else res}
+                            if path == "/stall":
+                                if res[0] != "error" or "imeout" not in res[1] + res[2]:
+                                    ctx.violation("overlap:no-timeout", f"a stalling peer ended a call with {res[:3]} while other calls were in flight", wit)
+                                continue
+                            if path == "/reset-mid-body":
+                                if res[0] != "error":
+                                    ctx.violation("overlap:reset-reported-as-response", "reset in the body reported as a response", wit)
+                                continue
+                            kind_e, val = expected_client_result(streams[path], True, CAP, decode_text=not raw)
+                            if res[0] != "response" or (res[1], res[2], res[3]) != val:
+                                which = "error" if res[0] != "response" else ("body" if (res[1], res[2]) == val[:2] else "header")
+                                ctx.violation(f"overlap:wrong-result:{which}:entry={kind}", f"call for {path} did not end as it does alone while {len(combo) - 1} other call(s) were in flight on the same client", wit)
+                            else:
+                                ctx.count("outcome", "overlap:faithful")
+                        ctx.case(("overlap", combo, entry_kinds, raw, tuple(r[0] for r in results)), True,
+                                 sample={"level": "L3-overlap", "calls": list(combo), "entries": list(entry_kinds), "raw": raw, "results": [r[0] for r in results]})
+
+
 def run(ctx):
     run_l1(ctx)
     run_l1_cap(ctx)
     if ctx.shard < 4:
         run_l3(ctx)
+    if ctx.shard >= 4 or ctx.nshards == 1:
+        run_l3_overlap(ctx)
